@@ -1,0 +1,219 @@
+//go:build verif
+
+// Assumed contracts on the environment of the vm package (comment-only file,
+// compiled only under the "verif" build tag; it adds no code): host
+// interfaces, function-typed host callbacks and dependency functions.
+// Everything in this file is TRUSTED, never verified, and is listed in the
+// evidence of every check that uses it.
+package vm
+
+// ---------------------------------------------------------------------------
+// vm.StateDB (host state database).
+//   kind purestate: the result is a function of the ghost state version and the
+//                   arguments (one unit of ghost work).
+//   kind mutating : produces a new ghost state version (the frame is "dirty").
+// Snapshot / RevertToSnapshot: the ghost map snapstate remembers the state
+// version at each snapshot id; reverting restores it (go-ethereum's journal).
+//@ ghostvar statever u64
+//@ ghostvar nextsnap u64
+//@ ghostvar snapstate map_u64_u64
+
+//@ iface vm.StateDB.GetBalance
+//@   kind purestate
+//@   ensures balance: result != nil && !bigwide(result) && !bigneg(result)
+//@ end
+//@ iface vm.StateDB.GetNonce
+//@   kind purestate
+//@ end
+//@ iface vm.StateDB.GetCodeHash
+//@   kind purestate
+//@ end
+//@ iface vm.StateDB.GetCode
+//@   kind purestate
+//@ end
+//@ iface vm.StateDB.GetCodeSize
+//@   kind purestate
+//@ end
+//@ iface vm.StateDB.GetRefund
+//@   kind purestate
+//@ end
+//@ iface vm.StateDB.GetCommittedState
+//@   kind purestate
+//@ end
+//@ iface vm.StateDB.GetState
+//@   kind purestate
+//@ end
+//@ iface vm.StateDB.GetTransientState
+//@   kind purestate
+//@ end
+//@ iface vm.StateDB.HasSuicided
+//@   kind purestate
+//@ end
+//@ iface vm.StateDB.Exist
+//@   kind purestate
+//@ end
+//@ iface vm.StateDB.Empty
+//@   kind purestate
+//@ end
+//@ iface vm.StateDB.AddressInAccessList
+//@   kind purestate
+//@ end
+//@ iface vm.StateDB.SlotInAccessList
+//@   kind purestate
+//@ end
+//@ iface vm.StateDB.CreateAccount
+//@   kind mutating
+//@ end
+//@ iface vm.StateDB.SubBalance
+//@   kind mutating
+//@ end
+//@ iface vm.StateDB.AddBalance
+//@   kind mutating
+//@ end
+//@ iface vm.StateDB.SetNonce
+//@   kind mutating
+//@ end
+//@ iface vm.StateDB.SetCode
+//@   kind mutating
+//@ end
+//@ iface vm.StateDB.AddRefund
+//@   kind mutating
+//@ end
+//@ iface vm.StateDB.SubRefund
+//@   kind mutating
+//@ end
+//@ iface vm.StateDB.SetState
+//@   kind mutating
+//@ end
+//@ iface vm.StateDB.SetTransientState
+//@   kind mutating
+//@ end
+//@ iface vm.StateDB.Suicide
+//@   kind mutating
+//@ end
+//@ iface vm.StateDB.AddAddressToAccessList
+//@   kind mutating
+//@ end
+//@ iface vm.StateDB.AddSlotToAccessList
+//@   kind mutating
+//@ end
+//@ iface vm.StateDB.Prepare
+//@   kind mutating
+//@ end
+//@ iface vm.StateDB.AddLog
+//@   kind mutating
+//@ end
+//@ iface vm.StateDB.AddPreimage
+//@   kind mutating
+//@ end
+//@ iface vm.StateDB.Snapshot
+//@   modifies ghost:snapstate, ghost:nextsnap
+//@   ensures id: result == int(old(nextsnap)) && nextsnap == old(nextsnap) + 1 && snapstate[old(nextsnap)] == statever
+//@   ensures others: forall k uint64 :: k != old(nextsnap) ==> snapstate[k] == old(snapstate[k])
+//@ end
+//@ iface vm.StateDB.RevertToSnapshot
+//@   modifies ghost:statever
+//@   ensures restored: statever == snapstate[uint64($1)]
+//@ end
+
+// ---------------------------------------------------------------------------
+// Debug tracer (vm.EVMLogger) and Aspect logger: no effect on verifier-visible
+// state. Their call sites are events for the ghost monitors.
+
+//@ iface vm.EVMLogger.CaptureTxStart
+//@   kind event
+//@ end
+//@ iface vm.EVMLogger.CaptureTxEnd
+//@   kind event
+//@ end
+//@ iface vm.EVMLogger.CaptureStart
+//@   kind event
+//@ end
+//@ iface vm.EVMLogger.CaptureEnd
+//@   kind event
+//@ end
+//@ iface vm.EVMLogger.CaptureEnter
+//@   kind event
+//@ end
+//@ iface vm.EVMLogger.CaptureExit
+//@   kind event
+//@ end
+//@ iface vm.EVMLogger.CaptureState
+//@   kind event
+//@ end
+//@ iface vm.EVMLogger.CaptureFault
+//@   kind event
+//@ end
+
+// ---------------------------------------------------------------------------
+// ContractRef.Address is a pure accessor (both the artela and the go-ethereum interface types).
+//@ iface vm.ContractRef.Address
+//@   kind pure
+//@ end
+//@ iface github.com/ethereum/go-ethereum/core/vm.ContractRef.Address
+//@   kind pure
+//@ end
+
+// error.Error(): the text of an error value (uninterpreted function errtext).
+//@ iface error.Error
+//@   kind pure
+//@   ensures text: result == errtext(self)
+//@ end
+
+// Host callbacks of the block context.
+//@ fntype vm.CanTransferFunc
+//@   kind purestate
+//@ end
+//@ fntype vm.TransferFunc
+//@   kind mutating
+//@ end
+//@ fntype vm.GetHashFunc
+//@   kind pure
+//@ end
+
+// Precompiled contracts reached through the interface (the standard ones are
+// upstream code: EQ; the three Artela ones are verified on their own).
+//@ iface vm.PrecompiledContract.RequiredGas
+//@   kind pure
+//@ end
+//@ iface vm.PrecompiledContract.Run
+//@   kind mutating
+//@ end
+//@ iface vm.ContextfulPrecompiledContract.CloneWithCtx
+//@   kind fresh
+//@   ensures clone: result != nil
+//@ end
+
+
+// ---------------------------------------------------------------------------
+// aspect-core (external module): the join-point runtime. With no Aspect bound
+// transactionAdvice returns {Gas: gas, Err: nil}; a provider error returns
+// {Gas: gas, Err: err}; a bound Aspect runs in wasm (outside this repository).
+// The result is an abstract triple; "Gas <= gas passed in" is ASSUMED (C06).
+//@ func github.com/artela-network/aspect-core/djpm.AspectInstance
+//@   trusted
+//@   kind pure
+//@   ensures initialised: result != nil
+//@ end
+//@ func (github.com/artela-network/aspect-core/djpm.Aspect).PreContractCall
+//@   trusted
+//@   kind mutating
+//@   ensures result-nonnil: result != nil
+//@ end
+//@ func (github.com/artela-network/aspect-core/djpm.Aspect).PostContractCall
+//@   trusted
+//@   kind mutating
+//@   ensures result-nonnil: result != nil
+//@ end
+
+// Host callbacks registered by the embedder in aspect-core/types (package-level
+// function variables): arbitrary results, may mutate host state.
+//@ funcvar github.com/artela-network/aspect-core/types.GetAspectContext
+//@   kind mutating
+//@ end
+//@ funcvar github.com/artela-network/aspect-core/types.SetAspectContext
+//@   kind mutating
+//@ end
+//@ funcvar github.com/artela-network/aspect-core/types.JITSenderAspectByContext
+//@   kind mutating
+//@ end
